@@ -308,6 +308,15 @@ def simple_cache_fun(f):
     return g
 
 
+def _q2_pow_half(q2, l):
+    """:math:`(q^2)^{l/2}`.  For odd `l` the base is clipped at 0: round-off makes
+    :math:`q^2` slightly negative at threshold and the fractional power would be NaN
+    (even `l` keep the integer power of the signed :math:`q^2`)."""
+    if l % 2 == 0:
+        return q2 ** (l / 2)
+    return tf.maximum(q2, tf.zeros_like(q2)) ** (l / 2)
+
+
 def get_relative_p(m_0, m_1, m_2):
     """relative momentum for 0 -> 1 + 2"""
     M12S = m_1 + m_2
@@ -1109,14 +1118,14 @@ class HelicityDecay(AmpDecay):
             if self.has_bprime:
                 bp = Bprime_q2(l, q2, q02, d)
                 if self.has_ql:
-                    tmp = q2 ** (l / 2) * tf.cast(bp, dtype=q2.dtype)
+                    tmp = _q2_pow_half(q2, l) * tf.cast(bp, dtype=q2.dtype)
                 else:
                     tmp = tf.ones_like(q2) * tf.cast(bp, dtype=q2.dtype)
                 if self.barrier_factor_norm:
                     tmp = tmp / tf.cast(tf.abs(q02), tmp.dtype) ** (l / 2)
             else:
                 if self.has_ql:
-                    tmp = q2 ** (l / 2)
+                    tmp = _q2_pow_half(q2, l)
                 else:
                     tmp = tf.ones_like(q2)
             # tmp = tf.where(q > 0, tmp, tf.zeros_like(tmp))
